@@ -55,7 +55,7 @@ structure Reduced where
 deriving DecidableEq, Repr
 
 /-- tag of `np.asarray([])` -/
-def emptyArrayTag : Str := "float64:[]".toList
+def emptyArrayTag : Str := "<f8[0]:[]".toList
 
 /-- `HeaderItem.__reduce__` -/
 def reduceItem (o : PyItem) : Reduced :=
